@@ -137,6 +137,45 @@ def dice (dataAxes : List String) (sels : List Sel) (caxes : List String) : List
     | some k => sels[k]?
     | none => none)
 
+section NdWrites
+variable {α β : Type}
+/-- Last element of a list satisfying `p`. -/
+def lastSat (p : α → Bool) : List α → Option α
+  | [] => none
+  | x :: xs => match lastSat p xs with
+    | some y => some y
+    | none => if p x then some x else none
+
+def product : List (List α) → List (List α)
+  | [] => [[]]
+  | xs :: rest => xs.flatMap (fun x => (product rest).map (fun r => x :: r))
+
+def matchAll : List (β → Bool) → List β → Bool
+  | [], [] => true
+  | q :: qs, b :: bs => q b && matchAll qs bs
+  | _, _ => false
+
+def sequence : List (Option α) → Option (List α)
+  | [] => some []
+  | none :: _ => none
+  | some x :: rest => (sequence rest).map (x :: ·)
+
+
+/-- One write of an N-d assignment along one axis: (target position, value index). -/
+abbrev W := Int × Nat
+def qpos (pos : Int) : W → Bool := fun w => w.1 == pos
+
+/-- The order in which `_set_subspace` performs its writes: the Cartesian product of the
+per-axis *pieces* (first axis outermost), and inside each piece tuple the Cartesian product
+of the positions (a numpy slice assignment, row-major). -/
+def algoND (Gs : List (List (List W))) : List (List W) := (product Gs).flatMap product
+
+/-- Groups of writes of one list axis: one group per piece. -/
+def listGroups (n : Nat) (l : List Int) : List (List W) :=
+  let ps := pairPieces n l
+  (ps.zip (valueSlices 0 ps)).map (fun pv => pieceWrites n l.length pv.1 pv.2)
+end NdWrites
+
 /-- No consecutive pair `(l[2k], l[2k+1])` repeats a position. -/
 def pairsDistinct (n : Nat) : List Int → Bool
   | a :: b :: rest => (norm n a != norm n b) && pairsDistinct n rest
